@@ -171,6 +171,7 @@ func deref(p *value.Value) interface{} {
 
 // checkEdits applies every kind of direct edit at every operand of configuration c.
 func (ck *checker) checkEdits(c *schema.Case) {
+	ck.checkOptional(c)
 	e := ck.tabs.Lookup(c.Cat, c.Kind)
 	minOf := func(op *schema.Op) int {
 		for _, g := range e.Groups {
@@ -331,6 +332,92 @@ func (ck *checker) checkEdits(c *schema.Case) {
 				ck.rep.Count("edit:"+c.ID()+":remove:"+op.Key(), true)
 				ck.verifyViews(w, u, c2, ms2, "remove", c)
 			}
+		}
+	}
+}
+
+// checkOptional: an optional operand (ret value, alloca count, unwind target of cleanupret /
+// catchswitch) is cleared (field = nil, or nil written through its slot) or set after the views
+// were used; the model of the edited instruction is the neighbouring configuration of the table.
+func (ck *checker) checkOptional(c *schema.Case) {
+	e := ck.tabs.Lookup(c.Cat, c.Kind)
+	fresh := func() (*world, value.User, []value.Value) {
+		w := newWorld()
+		ms := w.markers(c)
+		u, _, p := build(w, c, ms)
+		if p {
+			return nil, nil, nil
+		}
+		u.Operands()
+		if t, ok := u.(ir.Terminator); ok {
+			t.Succs()
+		}
+		return w, u, ms
+	}
+	for gi, g := range e.Groups {
+		if g.Ar != "opt" || gi >= len(c.Cfg.Cnt) {
+			continue
+		}
+		slot := g.Mem[0].N
+		cnt := append([]int{}, c.Cfg.Cnt...)
+		cnt[gi] = 1 - c.Cfg.Cnt[gi]
+		nb0 := ck.configs[cfgKey(c.Kind, cnt, c.Cfg.Bund)]
+		if nb0 == nil {
+			mbt.Infra("spec gap: no configuration %s of %s for the optional operand %s", cfgKey(c.Kind, cnt, c.Cfg.Bund), c.Kind, slot)
+		}
+		nb := cloneCase(nb0)
+		nb.Name = c.Name
+		if c.Cfg.Cnt[gi] == 1 {
+			// present -> absent
+			at := -1
+			for i := range c.Ops {
+				if c.Ops[i].Slot == slot {
+					at = i
+				}
+			}
+			for _, via := range []string{"set-absent", "set-absent-through-slot"} {
+				w, u, ms := fresh()
+				if u == nil {
+					continue
+				}
+				if via == "set-absent" {
+					f := reflect.ValueOf(u).Elem().FieldByName(slot)
+					f.Set(reflect.Zero(f.Type()))
+				} else {
+					done := false
+					for _, sl := range u.Operands() {
+						if sl != nil && same(*sl, ms[at]) {
+							*sl = nil
+							done = true
+							break
+						}
+					}
+					if !done {
+						continue
+					}
+				}
+				ms2 := append(append([]value.Value{}, ms[:at]...), ms[at+1:]...)
+				ck.rep.Count("edit:"+c.ID()+":"+via+":"+slot, true)
+				ck.verifyViews(w, u, cloneCase(nb), ms2, via, c)
+			}
+		} else {
+			// absent -> present
+			at := -1
+			for i := range nb.Ops {
+				if nb.Ops[i].Slot == slot {
+					at = i
+				}
+			}
+			w, u, ms := fresh()
+			if u == nil || at < 0 {
+				continue
+			}
+			r := w.value(nb, &nb.Ops[at], "edit", true)
+			f := reflect.ValueOf(u).Elem().FieldByName(slot)
+			f.Set(reflect.ValueOf(&r).Elem())
+			ms2 := append(append(append([]value.Value{}, ms[:at]...), r), ms[at:]...)
+			ck.rep.Count("edit:"+c.ID()+":set-present:"+slot, true)
+			ck.verifyViews(w, u, cloneCase(nb), ms2, "set-present", c)
 		}
 	}
 }
